@@ -255,7 +255,7 @@ fn reopen_check(c: &mut Case, path: &Path, st: &Start, model: &BTreeMap<String, 
 /// Bytes between the end of the tables and the next 512-byte boundary where appended data starts: the block table
 /// is rewritten in place, so it can grow by this much before it runs into appended file data.
 fn measure_slack(path: &Path) -> usize {
-    match Archive::open(path) {
+    match trap(|| Archive::open(path)).unwrap_or_else(|_| Err(wow_mpq::Error::invalid_format("panic"))) {
         Ok(a) => {
             let h = a.header();
             let end = (a.archive_offset() + h.get_block_table_pos() + h.block_table_size as u64 * 16).max(a.archive_offset() + h.get_hash_table_pos() + h.hash_table_size as u64 * 16);
@@ -309,13 +309,24 @@ fn run_history(c: &mut Case, st: &Start, ops: &[Op], names: &[String], dir: &Pat
         c.count("ops", 1);
         c.count(&format!("op|{}", op_kind(op).split('[').next().unwrap_or("?")), 1);
         if let Op::Reopen = op {
-            drop(ma.take());
+            // closing flushes (Drop); a panic in there must not escape un-attributed
+            if let Err(p) = trap(|| drop(ma.take())) {
+                c.violate(feat.sig("close-panic", st.version, "-", &p.sig()), format!("dropping the MutableArchive (flush on drop) panicked after op {k}: {}", p.msg), json!({}));
+                return;
+            }
             reopen_check(c, &path, st, &model, &ever, &feat, &format!("after op {k}"));
             if !c.viol.is_empty() {
                 break;
             }
             feat.mutated_in_session = false;
-            match MutableArchive::open(&path) {
+            let reopened = match trap(|| MutableArchive::open(&path)) {
+                Ok(r) => r,
+                Err(p) => {
+                    c.violate(feat.sig("mutable-open-panic", st.version, "-", &p.sig()), format!("MutableArchive::open panicked after op {k}: {}", p.msg), json!({}));
+                    return;
+                }
+            };
+            match reopened {
                 Ok(m) => ma = Some(m),
                 Err(e) => {
                     c.violate(feat.sig("mutable-open-failed-after-history", st.version, "-", &err_key(&e.to_string())), format!("MutableArchive::open failed after op {k}: {e}"), json!({}));
@@ -390,9 +401,18 @@ fn run_history(c: &mut Case, st: &Start, ops: &[Op], names: &[String], dir: &Pat
                 let _ = std::fs::remove_file(&path);
                 return;
             }
-            Ok(Err(_e)) => {
+            Ok(Err(e)) => {
                 c.count(&format!("op_err|{}", kind.split('[').next().unwrap_or("?")), 1);
-                // model unchanged
+                // model unchanged. But a refused addition may already have appended its data and block entry before the
+                // refusal (hash table full): the block table still grows, which feeds the growth-over-slack predicate.
+                if let Op::Add { .. } = op {
+                    if !matches!(e, wow_mpq::Error::FileExists(_)) {
+                        feat.appended_blocks += 1;
+                        if feat.appended_blocks * 16 > feat.slack_bytes {
+                            feat.table_growth_over_slack = true;
+                        }
+                    }
+                }
             }
             Ok(Ok(())) => {
                 feat.ops.insert(kind.clone());
@@ -441,7 +461,10 @@ fn run_history(c: &mut Case, st: &Start, ops: &[Op], names: &[String], dir: &Pat
         }
     }
     // end of history: drop (flush on drop) and reopen
-    drop(ma.take());
+    if let Err(p) = trap(|| drop(ma.take())) {
+        c.violate(feat.sig("close-panic", st.version, "-", &p.sig()), format!("dropping the MutableArchive (flush on drop) panicked at the end of the history: {}", p.msg), json!({}));
+        return;
+    }
     reopen_check(c, &path, st, &model, &ever, &feat, "at end of history");
     let _ = std::fs::remove_file(&path);
 }
